@@ -47,6 +47,7 @@ def cases_for(prop, tier):
         vecs = ['', 's', 'fs', 'sws'] + (['f', 'ss', 'sw', 'ssf', 'ssss', 'wfsw'] if thorough else [])
         for v in vecs:
             yield {'stack': 'move', 'vec': v}
+        yield {'stack': 'move', 'vec': 'sw', 'as_list': True}
         yield {'stack': 'move', 'vec': 'ss', 'dest_fault': 'hang-after-last'}
         yield {'stack': 'move', 'vec': 's' if not thorough else 'sw', 'clients': 2}
         for v in (['', 's', 'sws'] + (['ss', 'sf', 'ssss'] if thorough else [])):
@@ -61,6 +62,7 @@ def cases_for(prop, tier):
         yield {'stack': 'same-uid', 'n': 2, 'pre': True}       # the instance is already in the directory
         if thorough:
             yield {'stack': 'same-uid', 'n': 3}
+        yield {'stack': 'msg-ids', 'n': 1000}
         yield {'stack': 'artim-next-to-echo', 'count_all': True}
         yield {'stack': 'rq-repeat', 'times': 3}
         yield {'stack': 'reconfigure'}
@@ -177,7 +179,8 @@ def make(case):
                 def on_receive_move(self, context, ds, destination):
                     L = str(ds.PatientID)
                     log.append(('move-rq', L, str(destination)))
-                    return {'aet': 'DEST', 'address': 'dest', 'port': 104}, len(sets[L]), iter(sets[L])
+                    # (the application may hand the instances over as a list or as an iterator)
+                    return {'aet': 'DEST', 'address': 'dest', 'port': 104}, len(sets[L]), (list(sets[L]) if case.get('as_list') else iter(sets[L]))
             qr = assoc.make_ae('QR', [IMPL], 16384, [sopclass.qr_move_scp], cls=MoveAE)
             qr.add_scu(sopclass.storage_scu, [CT])
             net.listen(('srv', 104), e3.serve_ae(qr))
@@ -213,7 +216,7 @@ def make(case):
                 done = 0
                 for i, d in enumerate(insts):
                     rq = dimsemessages.CStoreRQMessage()
-                    rq.message_id = 700 + i
+                    rq.message_id = 0 if i == 0 else 700 + i       # (0 is a legitimate message id)
                     rq.sop_class_uid = d.SOPClassUID
                     rq.affected_sop_instance_uid = d.SOPInstanceUID
                     rq.priority = 0
@@ -362,6 +365,18 @@ def make(case):
                     except exceptions.NetDICOMError as exc:
                         results['clients'][L] = '%s: %s' % (type(exc).__name__, exc)
                 sched.spawn(client, 'client-' + 'ABC'[j])
+            results['client'] = 'ok'
+
+        elif kind == 'msg-ids':
+            # message ids handed out by the convenience API: two application threads drawing many ids each
+            def draw(tag):
+                def run():
+                    results[tag] = [pynetdicom2._new_msg_id() for _ in range(case['n'])]
+                    e3.cur().point('drawn')
+                    results[tag] += [pynetdicom2._new_msg_id() for _ in range(5)]
+                return run
+            sched.spawn(draw('ids-a'), 'client-a')
+            sched.spawn(draw('ids-b'), 'client-b')
             results['client'] = 'ok'
 
         elif kind == 'artim-next-to-echo':
@@ -589,7 +604,7 @@ def judge(case, out):
             viol.append((sig + ':instances', 'caller was handed %d instances %r, provider sent %d (%s)' % (
                 len(gd), [exp_all.index(d) if d in exp_all else '?' for d in gd], n, where)))
         rsps = [x for x in log if x[0] == 'store-rsp']
-        exp_r = [('store-rsp', i, 'CStoreRSPMessage', True, 700 + i, r['insts'][i][0], OUT[vec[i]] if vec[i] != 'f' else None) for i in range(n)] * reps
+        exp_r = [('store-rsp', i, 'CStoreRSPMessage', True, 0 if i == 0 else 700 + i, r['insts'][i][0], OUT[vec[i]] if vec[i] != 'f' else None) for i in range(n)] * reps
         bad = [(g, e) for g, e in zip(rsps, exp_r) if g[:6] != e[:6] or (e[6] is not None and g[6] != e[6]) or
                (e[6] is None and g[6] in (0, 0xB000, 0xFF00, 0xFF01))]
         n *= reps
@@ -643,6 +658,13 @@ def judge(case, out):
             if sum(1 for c in contents if c.endswith(raw)) != 1:
                 viol.append((sig + ':files', 'after %d stores of one instance UID the directory holds %r; the content of client %s is in %d of them (%s)' % (
                     len(sent), [(nm, len(c)) for nm, c in zip(names, contents)], L, sum(1 for c in contents if c.endswith(raw)), where)))
+    elif kind == 'msg-ids':
+        for tag in ('ids-a', 'ids-b'):
+            ids = r.get(tag, [])
+            if len(ids) != case['n'] + 5 or len(set(ids)) != len(ids) or not all(isinstance(x, int) and 0 <= x <= 0xFFFF for x in ids):
+                dup = sorted(set(x for x in ids if ids.count(x) > 1))[:5]
+                viol.append((sig + ':not-unique', '%d message ids drawn in one thread: %d distinct, repeated %r, range %r..%r (%s)' % (
+                    len(ids), len(set(ids)), dup, min(ids) if ids else None, max(ids) if ids else None, where)))
     elif kind == 'artim-next-to-echo':
         if r.get('echo') != 0:
             viol.append((sig + ':echo', 'echo status %r (%s)' % (r.get('echo'), where)))
